@@ -440,7 +440,7 @@ func setup() int {
 		if !strings.HasSuffix(e.Name(), ".tla") {
 			continue
 		}
-		out, err := runCmd(dir, "java", "-cp", tlaJar, "tla2sany.SANY", e.Name())
+		out, err := runCmd(dir, "java", "-Djava.io.tmpdir="+dir, "-cp", tlaJar, "tla2sany.SANY", e.Name())
 		if err != nil || strings.Contains(out, "*** Errors") || strings.Contains(out, "Fatal errors") {
 			fmt.Printf("setup: SANY rejects %s:\n%s\n", e.Name(), out)
 			return 2
